@@ -61,9 +61,9 @@ DEFAULTS = {"int": 7, "str": "dflt", "any": "anydflt"}
 PYTYPES = {"int": int, "str": str, "any": Any}
 
 
-def good_value(shape, i: int) -> Any:
+def good_value(shape, i: int, names: "Optional[Names]" = None) -> Any:
     ty = shape[i - 1]["ty"]
-    return {"int": 100 + i, "str": f"v{i}", "any": {"unk1": "x1"}}[ty]
+    return {"int": 100 + i, "str": f"v{i}", "any": {(names.table["u1"] if names else "unk1"): "x1"}}[ty]
 
 
 def bad_value(shape, i: int) -> Any:
@@ -198,7 +198,7 @@ def render_data(d: dict, shape, names: Names) -> Any:
     if c == "atom":
         a = d["a"]
         if a == "good":
-            return good_value(shape, d["f"])
+            return good_value(shape, d["f"], names)
         if a == "bad":
             return bad_value(shape, d["f"])
         if a == "none":
@@ -301,11 +301,13 @@ def run_program(case: dict, seed: int, names: Names, out: dict, kind_factory=Non
         m._sat = extra
 
     def extractor(m):
-        return {"unk1": "x1"}
+        return {names.table["u1"]: "x1"}
     helpers = {"saturator": saturator, "extractor": extractor}
 
     def add(cat, what, detail, extra_sig=None, **kw):
         sig = {"what": what, **{k: feats[k] for k in ("aslist", "extra_in", "extra_out", "nested", "list_step")}}
+        if getattr(names, "table_index", None) is not None:
+            sig["names"] = names.table_index
         if extra_sig:
             sig.update(extra_sig)
         out[cat].append({"sig": sig, "detail": detail, "size": len(json.dumps(case["ovs"])) + 10 * len(shape), "case": {
@@ -443,7 +445,7 @@ def run_twin(c1: dict, c2: dict, seed: int, names: Names, out: dict) -> None:
     rng = random.Random(f"twin{seed}:{stable_hash([c1['ovs'], c2['ovs']])}")
     model = make_dataclass_model(shape, names)
     outer = dataclasses.make_dataclass("Outer", [("p", model), ("q", model)])
-    helpers = {"saturator": lambda m, extra: setattr(m, "_sat", extra), "extractor": lambda m: {"unk1": "x1"}}
+    helpers = {"saturator": lambda m, extra: setattr(m, "_sat", extra), "extractor": lambda m: {names.table["u1"]: "x1"}}
     order = [("p", c1), ("q", c2)]
     if rng.random() < 0.5:
         order.reverse()
@@ -531,14 +533,18 @@ def _min_per_sig(fs: list) -> list:
 
 def _worker(items) -> dict:
     out: dict = {"programs": 0, "runs": 0, "machinery": [], "samples": [], **{c: [] for c in CATS}}
-    names = Names()
     out["twins"] = 0
-    for seed, path, spans in items:
+    for seed, path, spans, tables in items:
         prev = None
+        names = Names()
         with open(path, "rb") as f:
             for off, ln in spans:
                 f.seek(off)
                 case = json.loads(json.loads(f.read(ln).decode("utf-8")))
+                if tables:
+                    h = int(stable_hash([case["shape"], case["ovs"]]), 16)
+                    names = Names(tables[(h + seed) % len(tables)])
+                    names.table_index = (h + seed) % len(tables)
                 try:
                     run_program(case, seed, names, out)
                     twinable = case["created_in"] and case["sch"]["extra_in"]["p"] not in ("kwargs", "target") and len(case["shape"]) == 3
@@ -558,7 +564,7 @@ def _worker(items) -> dict:
     return out
 
 
-def run_slices(ctx: Ctx, slices, max_overlays: dict) -> dict:
+def run_slices(ctx: Ctx, slices, max_overlays: dict, tables: Optional[list] = None, twins: bool = True) -> dict:
     total: dict = {"programs": 0, "runs": 0, "twins": 0, **{c: [] for c in CATS}}
     for sl in slices:
         cfg = make_cfg(constants=dict(Slice=f'"{sl}"', MaxOverlays=max_overlays.get(sl, 1), EmitCases=True), invariants=INVS)
@@ -574,7 +580,7 @@ def run_slices(ctx: Ctx, slices, max_overlays: dict) -> dict:
                 if line.startswith(b'"{\\"shape\\":'):
                     spans.append((off, ln - 1))
                 off += ln
-        items = [(ctx.seed, str(res.out_path), spans[i:i + 20]) for i in range(0, len(spans), 20)]
+        items = [(ctx.seed, str(res.out_path), spans[i:i + 20], tables) for i in range(0, len(spans), 20)]
         machinery = []
         for o in pmap(_worker, items, chunk=1):
             total["programs"] += o["programs"]
